@@ -108,5 +108,23 @@ CLAIMED['C20'] = {'design_ref': 'DESIGN.md §5 C20',
          "closes the socket exactly once as the last action and the handler's file exactly once directly "
          'before it. Correspondence: all endings through the real transfer threads; thread liveness checked.'}
 
+CLAIMED['C19'] = {'design_ref': 'DESIGN.md §5 C19',
+ 'note': "Trusted: Lean kernel (axioms audited), the deterministic scheduler harness/sched.py (real threads serialised at traced "
+         "source lines, cooperative locks) and the compiled driver. The theorems are about a lock-granularity model; that the code's "
+         "critical sections are where the model says is established only by the enumerated schedules (exploration supporting the tie, "
+         "not standing in for the theorem). Sequential behaviour of TextFileSource/DataStore/YamlTargetSource used as reference for the "
+         "linearization search is the real code run sequentially (verified against Lean models by C14/C15/C12); for the synchronized "
+         "LRU the search runs in Lean on the Lean model. Partial: pre-emption inside one source line and C-level sqlite/GIL behaviour; "
+         "the one-read-per-file repair of the YAML source is keyed by file name, two names of one file are still read separately.",
+ 'technique': 'Lean 4 proof (lock-granularity small-step model: mutex invariant, sequential log, linearizability checker accepted, no '
+              'deadlock, for all thread counts and schedules) + enumerated schedules of real threads',
+ 'text': "Lean theorems for every component whose operations each run inside one critical section of one lock, for every number of "
+         "threads, every program and EVERY schedule of acquire/load/store/release steps (the critical section is not atomic in the "
+         "model): mutual exclusion, the log is a valid sequential execution, the per-thread results pass the linearizability checker "
+         "(also evaluated in Lean on the real synchronized LRU's results), no deadlock. Correspondence: real threads on "
+         "SynchronizedCache(LRUCache), DataStore, TextFileSource and YamlTargetSource under a deterministic scheduler with enumerated "
+         "single pre-emptions at every traced line (sweeps) and sampled double pre-emptions, a file rewrite placed at every point; "
+         "results must be among the sequential outcomes and the component must answer correctly afterwards."}
+
 IN_PROGRESS_REASON = ("not claimed yet: model/theorems/correspondence for this property are still being built in this "
                       "round (see DESIGN.md §9); the technique applies")
